@@ -54,6 +54,17 @@ pub fn generate(run_seed: u64, corpus: &Corpus, sw: &Swarm, i: u64, exhaustive: 
         let n_env = W5_ENVS.len() as u64;
         let (kind, cl) = W5_ENVS[(i % n_env) as usize];
         let client = client_for(cl);
+        // last block of the exhaustive prefix: sliding multi-byte cases, each through iterate and the four loaders
+        let slide = gen::slide_count() * 5;
+        if i >= exhaustive - slide {
+            let j = i - (exhaustive - slide);
+            let client = match j % 5 {
+                0 => Client::Iterate,
+                n => Client::Loader((n - 1) as u8, if j % 2 == 0 { 0 } else { 2 }),
+            };
+            return Case { prop: "C01".into(), gen: "S-sliding".into(), text: gen::nth_slide(j / 5), input: if j % 3 == 0 { InputKind::Buffered } else { InputKind::Str }, client, ..Case::default() };
+        }
+        let exhaustive = exhaustive - slide;
         // first the W5 character strings, then the W8 token strings, each x 6 environments
         let w5 = gen::w5_count(if exhaustive > 5_000_000 { 5 } else { 4 });
         let k = i / n_env;
